@@ -208,5 +208,5 @@ def check(run):
                           'dominated by the false edge of (<bytes gathered> > 0)')
     if n_eof < 2:
         run.broke('only %d sites surface a queued packet error (2 confirmed by hand: available, read_some_impl)' % n_eof)
-    run.floor('R7', 30)
-    run.floor('R2', 8)
+    run.floor('R7', 21)
+    run.floor('R2', 5)
